@@ -6,6 +6,7 @@ import PallasVerif.Model.FeeSize
 import PallasVerif.Model.Witness
 import PallasVerif.Model.ValidateTxs
 import PallasVerif.Model.PhaseOneArith
+import PallasVerif.Model.NativeScript
 /-!
 # C33 — Phase-1 validation is total  (level: `other`)
 
@@ -22,6 +23,7 @@ The property is a statement about ~6 kLoC of Rust (five era validators and `util
   (`lib/scan_panics_c33.py`); `panic_sites_all_audited` holds only while every syntactic panic site has an entry in the
   audited allow-list `lib/panic_audit_C33.json`.
 
+* `eval_total`, `native_scripts_total`: Shelley-MA native-script evaluation (`Model/NativeScript.lean`) never panics;
 * the script / datum / redeemer / minting-policy / language / metadata / script-integrity rules have no partial operation in
   their own code (`script_rule_sites_benign`, from the inventory); as total functions of observations they are in
   `Model/Rules.lean` (C38).
@@ -314,6 +316,103 @@ example : collateralBalance false false [.coin 5000000, .coin 1] (some (.coin 40
 example : collateralBalance false false [.coin 5000000] none 200000 150 (some 1) = .annotation := by decide
 example : collateralAlonzo 200000 150 [.coin 300000, .multi 300000 [("p", [("a", 1)])]] = .nonLovelace := by decide
 end collateral
+
+/-! ## Native scripts (`eval_native_script`, `check_native_scripts`) -/
+
+section native
+open NativeScript
+
+mutual
+theorem eval_total (keys : List String) (low upp : Option Nat) : (s : NS) → fits s = true → eval keys low upp s ≠ none
+  | .pubkey _, _ => by simp [eval]
+  | .all l, h => by
+    simp only [fits, Bool.and_eq_true] at h
+    simp only [eval]; exact evalAll_total keys low upp l h.2
+  | .any l, h => by
+    simp only [fits, Bool.and_eq_true] at h
+    simp only [eval]; exact evalAny_total keys low upp l h.2
+  | .nOfK n l, h => by
+    simp only [fits, Bool.and_eq_true, decide_eq_true_eq] at h
+    simp only [eval]
+    have := count_total keys low upp l 0 h.2 (by omega)
+    cases hc : count keys low upp 0 l with
+    | none => exact absurd hc this
+    | some c => simp
+  | .invalidBefore _, _ => by simp [eval]
+  | .invalidHereafter _, _ => by simp [eval]
+theorem evalAll_total (keys : List String) (low upp : Option Nat) : (l : List NS) → fitsList l = true → evalAll keys low upp l ≠ none
+  | [], _ => by simp [evalAll]
+  | s :: rest, h => by
+    simp only [fitsList, Bool.and_eq_true] at h
+    have h1 := eval_total keys low upp s h.1
+    have h2 := evalAll_total keys low upp rest h.2
+    simp only [evalAll]
+    cases he : eval keys low upp s with
+    | none => exact absurd he h1
+    | some b => cases b <;> simp [h2]
+theorem evalAny_total (keys : List String) (low upp : Option Nat) : (l : List NS) → fitsList l = true → evalAny keys low upp l ≠ none
+  | [], _ => by simp [evalAny]
+  | s :: rest, h => by
+    simp only [fitsList, Bool.and_eq_true] at h
+    have h1 := eval_total keys low upp s h.1
+    have h2 := evalAny_total keys low upp rest h.2
+    simp only [evalAny]
+    cases he : eval keys low upp s with
+    | none => exact absurd he h1
+    | some b => cases b <;> simp [h2]
+/-- the `u32` count cannot overflow: it never exceeds the number of sub-scripts seen so far -/
+theorem count_total (keys : List String) (low upp : Option Nat) : (l : List NS) → (acc : Nat) → fitsList l = true →
+    acc + l.length ≤ U32_MAX → count keys low upp acc l ≠ none
+  | [], _, _, _ => by simp [count]
+  | s :: rest, acc, h, hb => by
+    simp only [fitsList, Bool.and_eq_true] at h
+    have h1 := eval_total keys low upp s h.1
+    simp only [List.length_cons] at hb
+    simp only [count]
+    cases he : eval keys low upp s with
+    | none => exact absurd he h1
+    | some b =>
+      have hle : acc + (if b = true then 1 else 0) ≤ acc + 1 := by cases b <;> simp
+      simp only
+      rw [if_neg (by omega)]
+      exact count_total keys low upp rest _ h.2 (by omega)
+end
+
+/-- **`check_native_scripts` never panics** -/
+theorem native_scripts_total (keys : List String) (low upp : Option Nat) : ∀ l : List NS, fitsList l = true →
+    checkNativeScripts keys low upp l ≠ none := by
+  intro l
+  induction l with
+  | nil => intro _; simp [checkNativeScripts]
+  | cons s rest ih =>
+    intro h
+    simp only [fitsList, Bool.and_eq_true] at h
+    have h1 := eval_total keys low upp s h.1
+    simp only [checkNativeScripts]
+    cases he : eval keys low upp s with
+    | none => exact absurd he h1
+    | some b => cases b <;> simp [ih h.2]
+
+/-- n-of-k is `count ≥ n` on the full count: `n = 0` holds for every list, `n > k` for none -/
+theorem nOfK_zero (keys : List String) (low upp : Option Nat) (l : List NS) (h : fits (.nOfK 0 l) = true) :
+    eval keys low upp (.nOfK 0 l) = some true := by
+  have := eval_total keys low upp (.nOfK 0 l) h
+  simp only [eval] at this ⊢
+  cases hc : count keys low upp 0 l with
+  | none => simp [hc] at this
+  | some c => simp
+
+example : eval ["a"] none none (.nOfK 0 [.pubkey "a", .pubkey "b"]) = some true := by decide
+example : eval ["a"] none none (.nOfK 1 [.pubkey "a", .pubkey "b"]) = some true := by decide
+example : eval ["a"] none none (.nOfK 2 [.pubkey "a", .pubkey "b"]) = some false := by decide
+example : eval ["a", "b"] none none (.nOfK 3 [.pubkey "a", .pubkey "b"]) = some false := by decide
+example : eval [] none none (.nOfK 0 []) = some true := by decide
+example : eval [] none none (.all []) = some true ∧ eval [] none none (.any []) = some false := by decide
+example : eval [] (some 100) (some 200) (.all [.invalidBefore 100, .invalidHereafter 200]) = some true := by decide
+example : eval [] (some 100) (some 200) (.any [.invalidBefore 101, .invalidHereafter 199]) = some false := by decide
+example : eval [] none none (.any [.invalidBefore 0, .invalidHereafter 0]) = some false := by decide
+example : eval ["a"] (some 5) none (.all [.nOfK 1 [.any [.pubkey "x", .pubkey "a"], .invalidBefore 9], .nOfK 0 []]) = some true := by decide
+end native
 
 /-! ## Preservation of value, Byron fees -/
 
